@@ -361,8 +361,15 @@ func buildType(fs []fieldDesc) reflect.Type {
 	for _, f := range fs {
 		if f.Embed != nil {
 			inner := []reflect.StructField{}
-			for _, g := range f.Embed {
-				inner = append(inner, structField(n, g))
+			// every second embedded struct names its fields F0, F1, … again: the same Go names as fields of the outer
+			// struct (legal - the outer one shadows the promoted one for selectors; for the codec they are two fields)
+			clash := n%2 == 1
+			for k, g := range f.Embed {
+				if clash {
+					inner = append(inner, structField(k, g))
+				} else {
+					inner = append(inner, structField(n, g))
+				}
 				n++
 			}
 			sfs = append(sfs, reflect.StructField{Name: fmt.Sprintf("E%d", n), Type: reflect.StructOf(inner), Anonymous: true})
